@@ -18,6 +18,31 @@ import (
 	"verifharness/gen/pdfw"
 )
 
+// rawInts finds the integer tokens of a PDF text (not part of a name, a real,
+// a keyword or a hex string): [start,end) pairs.
+func rawInts(d []byte) [][2]int {
+	delim := func(c byte) bool { return strings.IndexByte(" \t\r\n\f\x00[]<>()/", c) >= 0 }
+	var out [][2]int
+	for i := 0; i < len(d); i++ {
+		if i > 0 && !delim(d[i-1]) {
+			continue
+		}
+		j := i
+		if j < len(d) && (d[j] == '-' || d[j] == '+') {
+			j++
+		}
+		k := j
+		for k < len(d) && d[k] >= '0' && d[k] <= '9' {
+			k++
+		}
+		if k > j && (k == len(d) || delim(d[k])) {
+			out = append(out, [2]int{i, k})
+			i = k
+		}
+	}
+	return out
+}
+
 func stackString() string { return string(debug.Stack()) }
 
 func panicSite(stack string) string {
@@ -644,6 +669,9 @@ func rawBases(c *fw.Ctx) []*base {
 		&base{id: "rawobj0", kind: "raw-object", ext: "bin", data: []byte("<< /Type /Page /Kids [1 0 R 2 0 R] /A (str\\)ing) /B <48656C6C6F> /C [1 2.5 -3 true null /N#20x] /D << /E 1 0 R >> >>")},
 		&base{id: "rawobj1", kind: "raw-object", ext: "bin", data: []byte("7 0 obj\n<< /Length 11 /Filter /ASCIIHexDecode >>\nstream\n48656C6C6F>\nendstream\nendobj\n")},
 		&base{id: "rawcs0", kind: "raw-content", ext: "bin", data: []byte("q 1 0 0 1 50 50 cm BT /F1 12 Tf 10 20 Td (Hello) Tj [(a) -120 (b)] TJ T* <4142> Tj ET Q /Im1 Do BI /W 1 /H 1 ID x EI")},
+		// inline images with every dictionary key incl. the PDF 2.0 /L (length) entry, text-state operators, marked content
+		&base{id: "rawcs1", kind: "raw-content", ext: "bin", data: []byte("q BI /W 2 /H 2 /BPC 8 /CS /G /L 4 ID\nabcd\nEI Q BT /F1 9 Tf 2 Tr 3 Ts 1.5 Tc 2 Tw 90 Tz 11 TL 1 0 0 1 5 6 Tm (x) ' 1 2 (y) \" ET " +
+			"/P <</MCID 3>> BDC BT (z) Tj ET EMC BI /Width 3 /Height 1 /BitsPerComponent 8 /ColorSpace /RGB /Length 9 /F [/AHx] /D [0 1] /I true /IM false ID 616263616263616263> EI 0 0 10 10 re f /GS1 gs /Sh1 sh 5 0 0 5 0 0 cm /Fm1 Do")},
 		&base{id: "rawcmap0", kind: "raw-cmap", ext: "bin", data: pdfw.ToUnicodeProgram(map[string]string{"A": "x", "B": "y", "\x01\x02": "z"}, 1, "\n")},
 		&base{id: "rawcmap1", kind: "raw-cmap", ext: "bin", data: []byte("1 begincodespacerange\n<0000> <FFFF>\nendcodespacerange\n2 beginbfrange\n<0001> <0010> <0041>\n<0020> <0022> [<0061> <0062> <0063>]\nendbfrange\n1 beginbfchar\n<0030> <D83DDE00>\nendbfchar\n")},
 		&base{id: "rawstm0", kind: "raw-stream", ext: "bin", data: append([]byte("<< /Filter /FlateDecode /DecodeParms << /Predictor 12 /Columns 4 /Colors 1 >> >>\n"), func() []byte {
@@ -716,6 +744,13 @@ func buildCases(c *fw.Ctx) []*Case {
 		case b.kind == "raw-stream":
 			streamDictFaults(b, emit)
 		case strings.HasPrefix(b.kind, "raw-"):
+			// every integer token replaced by the hostile values of the catalogue
+			for _, loc := range rawInts(b.data) {
+				st, en := loc[0], loc[1]
+				for _, h := range hostileInts {
+					emit(fmt.Sprintf("int %s@%d=%s", b.data[st:en], st, h), splice(b.data, st, en, []byte(h)))
+				}
+			}
 			// token-ish single faults for raw parser inputs: truncate at every byte, drop every byte
 			for i := range b.data {
 				emit(fmt.Sprintf("truncate@%d", i), b.data[:i])
